@@ -57,6 +57,8 @@ pub fn run(out: &RunOut, p: &str) -> MonOut {
         let mut last_commit_after_result: Option<usize> = None;
         let mut pending_ping: Option<usize> = None; // index into xs
         let mut pre_step: Option<(u32, Option<TimeRec>)> = None;
+        // (site, presented, previous commit, values then current) of commits awaiting their check's result
+        let mut deferred: Vec<(String, Triple, Option<Triple>, Triple)> = vec![];
         let mut sig = String::new();
         for i in l.start..l.end {
             let r = &h[i];
@@ -82,7 +84,13 @@ pub fn run(out: &RunOut, p: &str) -> MonOut {
                             || pre.as_ref().map(|p| t.failures == p.failures && t.last == p.last).unwrap_or(false);
                         let poll_ok = t.poll == cur.poll || Some(t.poll) == prev_probe.as_ref().map(|p| p.poll);
                         let ok = Some(&t) == prev_probe.as_ref() || (pair_ok && poll_ok);
-                        if !ok {
+                        // a commit made inside a check before its result is announced may already hold
+                        // the values the check ends with: judged when the result is known
+                        let open_check = checks.iter().any(|c| c.start <= i && i < c.end && c.result_idx.map(|r| r > i).unwrap_or(true));
+                        if !ok && open_check {
+                            m.count("R3.commits_before_the_result");
+                            deferred.push((site.clone(), t.clone(), prev_probe.clone(), cur.clone()));
+                        } else if !ok {
                             m.viol(p, "R3", &site, format!("committed state presents {:?}: neither the previous commit {:?} nor the current values {:?}", t, prev_probe, cur));
                         }
                     }
@@ -228,6 +236,16 @@ pub fn run(out: &RunOut, p: &str) -> MonOut {
                         }
                     }
                     last_commit_after_result = None;
+                    for (dsite, t, prevp, then) in deferred.drain(..) {
+                        if let (Some(md), false) = (&model, resync) {
+                            let cur = stored_form(md);
+                            let pair_ok = t.failures == cur.failures && t.last == cur.last;
+                            let poll_ok = t.poll == cur.poll || Some(t.poll) == prevp.as_ref().map(|p| p.poll) || t.poll == then.poll;
+                            if !(pair_ok && poll_ok) {
+                                m.viol(p, "R3", &dsite, format!("committed state presents {:?}: neither the previous commit {:?}, nor the values current then {:?}, nor those the check ended with {:?}", t, prevp, then, cur));
+                            }
+                        }
+                    }
                 }
                 Kind::Event(EventRec::State(StateRec::Idle)) | Kind::Event(EventRec::State(StateRec::WaitingForReboot)) | Kind::StreamEnd => {
                     // R2: once a check is finished its values are committed
@@ -235,14 +253,12 @@ pub fn run(out: &RunOut, p: &str) -> MonOut {
                         let _ = c;
                         if let (Some(md), false) = (&model, resync) {
                             m.count("R2.finished_checks");
-                            match last_commit_after_result {
-                                None => m.viol(p, "R2", &site, "the check finished but nothing was committed to storage after its result".to_string()),
-                                Some(_) => {
-                                    let want = stored_form(md);
-                                    if prev_probe.as_ref() != Some(&want) {
-                                        m.viol(p, "R2", &site, format!("after the finished check the committed state presents {:?}, expected {:?}", prev_probe, want));
-                                    }
-                                }
+                            // (whether the commit was made before or after the result was announced is
+                            // not prescribed: once the machine is idle again storage must present the values)
+                            let _ = last_commit_after_result;
+                            let want = stored_form(md);
+                            if prev_probe.as_ref() != Some(&want) {
+                                m.viol(p, "R2", &site, format!("the check is finished and the machine idle again: the committed state presents {:?}, expected {:?}", prev_probe, want));
                             }
                         }
                     }
